@@ -329,7 +329,34 @@ pub fn run(mode: Mode, run: &Run) {
     if mode == Mode::C07 {
         run.set_rule("every formula of families A-G, I (capture pressure: defined variables over re-binding quantifiers) and J (fresh-name pressure: every subset of the first fresh-name candidates already taken) (thorough: + K, complete connective depth 2 over five atoms / depth 3 over two atoms) (atoms, F_1, all quantifier prefixes over F_1, quantified 3-conjunctions, two-level quantifier shapes, depth-2 trees, rewrite-targeted patterns, translation shapes) x 3 portfolios x 3 strategies x all free-variable assignments over the active set x all interpretations; non-trivial = (formula, portfolio, strategy) whose output differs syntactically from its input, counted by distinct output");
     } else {
-        run.set_rule("every formula of families A-G, I, J and the deep chains of family H (depth <= 24, thorough 40, every level needing its own pass) x 3 portfolios: fixpoint iteration re-run pass by pass with cycle detection, then the real apply_fixpoint compared and re-applied; non-trivial = distinct number-of-passes/outputs of formulas that changed");
+        run.set_rule("every formula of families A-G, I, J and the deep chains of family H (depth <= 24, thorough 40, every level needing its own pass) x 3 portfolios: fixpoint iteration re-run pass by pass with cycle detection, then the real apply_fixpoint compared and re-applied; every external task of the hand-written list assembled twice in one process (with another task in between) and compared byte-wise; non-trivial = distinct number-of-passes/outputs of formulas that changed");
+    }
+    if mode == Mode::C18 {
+        // the same input twice IN ONE PROCESS: every task of the hand-written list is assembled twice (and once
+        // more after a different task ran in between); the rendered problems must be byte-identical. The
+        // repeated fresh-process runs of the determinism half cannot see state that survives inside a process.
+        let tasks = crate::tasks::special_ext_tasks();
+        let flags = crate::tasks::Flags { dec: anthem::verif::Decomposition::Sequential, simplify: true, eqb: true };
+        let render = |t: &crate::tasks::ExtTask| -> Option<Vec<String>> {
+            crate::tasks::build_external(t, &flags, fol::Direction::Universal, false).ok().map(|ps| ps.iter().map(|p| p.to_string()).collect())
+        };
+        let mut compared = 0u64;
+        for (i, t) in tasks.iter().enumerate() {
+            let _w = run.watch("task", "task_key", &t.key());
+            let Some(first) = render(t) else { continue };
+            let _ = render(&tasks[(i + 1) % tasks.len()]);
+            let Some(second) = render(t) else { continue };
+            compared += 1;
+            run.state();
+            run.trans(first.len() as u64 * 2);
+            if first != second {
+                let idx = first.iter().zip(second.iter()).position(|(a, b)| a != b).unwrap_or(0);
+                let (a, b) = (first.get(idx).cloned().unwrap_or_default(), second.get(idx).cloned().unwrap_or_default());
+                let line = a.lines().zip(b.lines()).find(|(x, y)| x != y).map(|(x, y)| json!({"first": x, "second": y}));
+                run.violation("same_task_twice_in_one_process_differs".into(), json!({"kind": "assembling the same task twice in one process gives different problem texts", "task": t.describe(), "problem_index": idx, "first_differing_line": line}));
+            }
+        }
+        run.set_extra("tasks_assembled_twice_in_process", json!(compared));
     }
     run.assume("generic formulas over predicates p/0, q/1, active set {1,2,a}; unsolved quantifiers over windows 5/8 (outer) and 11/14 (inner), verdicts must be window-stable");
     let sem0 = generic_sem();
